@@ -624,3 +624,22 @@ R.contract(
     replayable=False,
 )
 R.spec_funcs["RECURSION_DEPTH_LIMIT"] = lambda it: it.module_get(__import__("pyvc.extract", fromlist=["load_module"]).load_module("schemathesis.specs.openapi.references"), "RECURSION_DEPTH_LIMIT")
+
+
+# ------------------------------------------------------------------------------------------------- _resolve_path_item: a path item behind a `$ref` is the referenced one, with ITS scope
+R.nominal_methods["spec:ScopeResolver"] = {"resolve": lambda it, obj, a, k: it.ghost.__setitem__("resolved_ref", a[0]) or ("scope-of-the-target", {"get": {"responses": {}}, "parameters": []})}
+R.contract(
+    OAS + "BaseOpenAPISchema._resolve_path_item",
+    variant="reference",
+    prop="C08",
+    args={"self": Obj(OAS + "OpenApi30", resolver=Obj("spec:ScopeResolver", resolution_scope=Str)),
+          "methods": DictOf(optional={"$ref": Const("#/components/pathItems/Shared"), "get": Const({"responses": {}}), "summary": Const("informative")})},
+    ghost={"resolved_ref": None},
+    raises=[],
+    ensures={
+        # "references resolved": the operations of a referenced path item are the target's, and references inside them are later resolved relative to the target's location
+        "a_referenced_path_item_is_the_target_with_the_targets_scope": "implies('$ref' in methods, result == ('scope-of-the-target', {'get': {'responses': {}}, 'parameters': []}) and ghost('resolved_ref') == methods['$ref'])",
+        "an_inline_path_item_is_itself_in_the_current_scope": "implies('$ref' not in methods, result[0] == self.resolver.resolution_scope and result[1] is methods and ghost('resolved_ref') is None)",
+    },
+    replayable=False,
+)
